@@ -13,12 +13,12 @@ RULE = ('random motor constants (log-uniform, any unit of their kind; i0 from 0 
 ASSUMPTIONS = ['reference law in vf/ref/motor.py', '1e-9 relative plus a cancellation floor proportional to ulp(i0)/(imax-i0) near the boundary',
                'subnormal |D| with i0 = 0 is out of domain (the documented expression itself overflows)']
 HEADLINE = ['motors', 'evaluations', 'region_dead_zone', 'region_boundary_ulp', 'region_normal_pos', 'region_normal_neg', 'region_beyond_no_load',
-            'region_no_current_data', 'antisymmetry_pairs', 'continuity_checks', 'derived_facts']
+            'region_no_current_data', 'antisymmetry_pairs', 'continuity_checks', 'derived_facts', 'simulation_current_samples']
 
 
 def floors(tier):
     return {'evaluations': 50000, 'region_dead_zone': 3000, 'region_boundary_ulp': 3000, 'region_normal_pos': 8000, 'region_normal_neg': 8000,
-            'region_beyond_no_load': 3000, 'region_no_current_data': 2000, 'antisymmetry_pairs': 20000, 'continuity_checks': 500, 'derived_facts': 1000}
+            'region_beyond_no_load': 3000, 'region_no_current_data': 2000, 'antisymmetry_pairs': 20000, 'continuity_checks': 500, 'derived_facts': 1000, 'simulation_current_samples': 2000}
 
 
 def n_cases(tier):
@@ -187,10 +187,50 @@ def check_point(ctx, m, ms, D, wq, w, Tmax, w0, i0, imax, cur, b, is_bnd, case):
         ctx.violation('C08:antisymmetry', dict(wit, T=[T.value, T.unit], T_mirror=[T2.value, T2.unit], i=[i.value, i.unit], i_mirror=[i2.value, i2.unit]), case)
 
 
+def sim_monitor(ctx, ana, case):
+    """inside whole simulations: the recorded current and driving torque follow the law at the recorded speed and duty cycle"""
+    from ..sim import mon as MON
+    spec, tr = ana.spec, ana.tr
+    Tmax, w0, i0, imax = MON.motor_consts(spec)
+    if i0 is None:
+        return
+    M = ana.M
+    for k in range(ana.N):
+        D, w = tr.pwm[k], M['angular speed'][k]
+        if D != D:
+            continue
+        x = abs(w / (D * w0)) if D else 0.0
+        cond = imax / (imax - i0)
+        ctx.count('simulation_current_samples')
+        if abs(RM.dead_zone_margin(i0, imax, D)) <= 1e-9:
+            ctx.count('near_threshold')
+            continue
+        ei = RM.current(Tmax, w0, i0, imax, D, w)
+        gi = M['electric current'][k]
+        if abs(gi - ei) > 1e-9 * abs(ei) + imax * 4e-15 * (1 + x) * cond:
+            ctx.violation('C08:current-in-simulation', {'instant': k, 'pwm': D, 'motor_speed': w, 'recorded_current': gi, 'reference': ei,
+                                                        'recorded_driving_torque': M['driving torque'][k], 'reference_torque': RM.torque(Tmax, w0, i0, imax, D, w)}, case)
+            return
+
+
+def sim_case(ctx, i):
+    from . import simcommon as SC
+    rng = ctx.rng('sim', i)
+    spec = GEN.gen_scenario(rng, dict(p_currents=1.0, p_continue=0.3, p_reset=0.1, n_lo=8, n_hi=40))
+    if i % 2:
+        GEN.add_const_rules(rng, spec)
+    SC.simulate_and_monitor(ctx, spec, {'kind': 'sim', 'index': i}, [sim_monitor])
+
+
 def shard(ctx):
     for i in ctx.my_cases(n_cases(ctx.tier)):
         one_motor(ctx, i, ctx.tier)
+    for i in ctx.my_cases(160 if ctx.tier == 'quick' else 6000):
+        sim_case(ctx, i)
 
 
 def replay(ctx, case):
-    one_motor(ctx, case['index'], ctx.tier)
+    if case.get('kind') == 'sim':
+        sim_case(ctx, case['index'])
+    else:
+        one_motor(ctx, case['index'], ctx.tier)
